@@ -1670,6 +1670,55 @@ def m_index_range(eng, st, call):
     return out
 
 
+def m_seq_drain(eng, st, call):
+    """Vec/VecDeque::drain(range): removes items[lo..hi] and yields them; symbolic bounds are case-split over 0..=len; out-of-range bounds panic.
+    (The removal is applied at the call, not when the Drain is dropped: the callers iterate it to the end.)"""
+    from .engine import Panic
+    r, v = _cont(eng, st, call.args[0], SeqV)
+    rng = call.args[1]
+    if v is None or not isinstance(rng, Agg):
+        return None
+    n = len(v.items)
+    ty = str(rng.ty or '')
+    if 'RangeFull' in ty or not rng.fields:
+        lo, hi = z3.BitVecVal(0, 64), z3.BitVecVal(n, 64)
+    elif 'RangeFrom' in ty or (len(rng.fields) == 1 and 'RangeTo' not in ty):
+        lo, hi = rng.fields[0], z3.BitVecVal(n, 64)
+    elif 'RangeTo' in ty and len(rng.fields) == 1:
+        lo, hi = z3.BitVecVal(0, 64), rng.fields[0]
+    elif len(rng.fields) == 2 and 'Inclusive' not in ty:
+        lo, hi = rng.fields[0], rng.fields[1]
+    else:
+        return None
+
+    def cases(s, x):
+        if isinstance(x, int):
+            x = z3.BitVecVal(x, 64)
+        xs = z3.simplify(x)
+        if z3.is_bv_value(xs):
+            k = xs.as_long()
+            return [(s, k if k <= n else None)]
+        res = []
+        for k in range(n + 1):
+            if eng.feasible(s, x == k):
+                s2 = s.clone(); eng.assume(s2, x == k); res.append((s2, k))
+        if eng.feasible(s, z3.UGT(x, n)):
+            s2 = s.clone(); eng.assume(s2, z3.UGT(x, n)); res.append((s2, None))
+        return res
+    out = []
+    for s1, a in cases(st, lo):
+        for s2, b in cases(s1, hi):
+            if b is None or a is None or a > b:
+                out.append((s2, Panic(f'drain range {a}..{b} out of range for length {n} in {call.site}')))
+                continue
+            seq = eng.read(s2, r.loc, r.path)
+            taken = seq.items[a:b]
+            del seq.items[a:b]
+            out.append((s2, IterV(list(taken))))
+    return out
+
+
+
 def m_default(eng, st, call):
     m = re.match(r'^<(.*) as (std::default::)?Default>::default$', call.fn, re.S)
     if not m:
@@ -1687,6 +1736,7 @@ STD_MODELS[:0] = [
     (R(r'^(std::cmp::|core::cmp::)?Ordering::(reverse|then|is_lt|is_le|is_gt|is_ge|is_eq|is_ne)$'), m_ordering_misc),
     (R(r'slice::<impl \[.*\]>::(sort_by|sort_unstable_by)::<'), m_sort_by),
     (R(r' as (std::ops::)?Index<(std::ops::)?Range<usize>>>::index$'), m_index_range),
+    (R(r'(Vec|VecDeque)::<.*>::drain::<'), m_seq_drain),
     (R(r'^<([\w:]*::)?(EventId|Timestamp) as (std::cmp::)?(Ord|PartialOrd)>::(cmp|partial_cmp|lt|le|gt|ge)$'), m_cmp_int),
 ]
 
